@@ -246,7 +246,7 @@ func c11Histories(run *vfRun, cfg *c11Cfg, ci int) []c11Hist {
 			mk(p0, 1, []int{0, 1}, []int{+3, -3})
 		}
 	}
-	for k := 0; k < run.Env.Pick(4, 160); k++ {
+	for k := 0; k < run.Env.Pick(12, 160); k++ {
 		kk := rng.Intn(4)
 		var ra, dir []int
 		for r := 0; r <= kk; r++ {
@@ -706,7 +706,7 @@ func TestVerif_C11(t *testing.T) {
 	run.Assume("the browser follows RFC 6265 (a deletion only hits a cookie of the same name, domain and path)",
 		"cookie store: an archived cookie replayed by hand may still authenticate (stateless) — recorded, not judged",
 		"refreshes are provoked by ageing the stored session through the store's own load/save (CreatedAt 10 minutes back, --cookie-refresh=1m)")
-	defer debug.SetGCPercent(debug.SetGCPercent(400))
+	defer debug.SetGCPercent(debug.SetGCPercent(200))
 	defer debug.SetMemoryLimit(debug.SetMemoryLimit(3 << 30)) // keeps the laxer pace from growing the heap without bound // wall time only: large cookie headers under the race detector
 	w := vfNewWorld(t)
 	defer w.Close()
@@ -806,7 +806,7 @@ func TestVerif_C11(t *testing.T) {
 		fmt.Printf("INCONCLUSIVE property=C11 reason=no replay / no refresh observed\n")
 		t.Fail()
 	}
-	run.Finish(int64(run.Env.Pick(700, 8000)), run.Env.Pick(400, 800))
+	run.Finish(int64(run.Env.Pick(850, 8000)), run.Env.Pick(450, 800))
 }
 
 var _ = sort.Strings
